@@ -160,6 +160,12 @@ func AcceptOrdinalSaleListing(ctx context.Context, vla *ValidateListingArgs, aso
 	if err != nil {
 		return nil, err
 	}
+	// Change silently adds nothing when the inputs do not even cover the fee
+	if enough, err := tx.EstimateIsFeePaidEnough(asoa.FQ); err != nil {
+		return nil, err
+	} else if !enough {
+		return nil, bt.ErrInsufficientFees
+	}
 
 	//nolint:dupl // TODO: are 2 dummies useful or to be removed?
 	for i, u := range asoa.UTXOs {
